@@ -540,6 +540,87 @@ func builderFlow(c *Ctx, g *load.G) {
 		r.Check(ok, "C04-i", "G.builder.writelnf:forwards-to-writef", "", where(fd), `writef(f+"\n", args...) unconditionally`, "does not forward its format plus newline and its arguments to writef on its only path")
 	}
 
+	// ---- C04-i (formats): what writef / writelnf interpret as a format is never grammar text. The format argument of
+	// every call resolves - through locals, parameters (at all call sites) and concatenation - to string constants and
+	// package-level template variables with a constant initialiser that nothing assigns to
+	{
+		fl := newFlow(bp, nil)
+		assignedVars := map[types.Object]bool{}
+		for _, fd := range load.AllFuncDecls(bp) {
+			if fd.Body == nil {
+				continue
+			}
+			ast.Inspect(fd.Body, func(n ast.Node) bool {
+				if as, ok := n.(*ast.AssignStmt); ok {
+					for _, l := range as.Lhs {
+						if id, ok := l.(*ast.Ident); ok {
+							if o, ok := bp.TypesInfo.Uses[id].(*types.Var); ok && o.Parent() == bp.Types.Scope() {
+								assignedVars[o] = true
+							}
+						}
+					}
+				}
+				return true
+			})
+		}
+		var fixedText func(e ast.Expr, in *ast.FuncDecl, depth int) string // "" = fixed; otherwise what is not
+		fixedText = func(e ast.Expr, in *ast.FuncDecl, depth int) string {
+			if depth > 6 {
+				return nospace(e)
+			}
+			if tv, ok := bp.TypesInfo.Types[e]; ok && tv.Value != nil {
+				return ""
+			}
+			switch x := stripParens(e).(type) {
+			case *ast.BinaryExpr:
+				if x.Op == token.ADD {
+					if w := fixedText(x.X, in, depth+1); w != "" {
+						return w
+					}
+					return fixedText(x.Y, in, depth+1)
+				}
+			case *ast.Ident:
+				if o, ok := bp.TypesInfo.Uses[x].(*types.Var); ok && o.Parent() == bp.Types.Scope() {
+					if _, isConstInit := pkgStringVar(bp, x.Name); isConstInit && !assignedVars[o] {
+						return ""
+					}
+					return x.Name + " (a package variable that is assigned, or has no constant initialiser)"
+				}
+				for _, o := range fl.origins(x, in, 0) {
+					if id, same := o.Expr.(*ast.Ident); same && id == x {
+						return nospace(x)
+					}
+					if w := fixedText(o.Expr, o.Fd, depth+1); w != "" {
+						return w
+					}
+				}
+				return ""
+			}
+			return nospace(e)
+		}
+		var bad []string
+		n := 0
+		for _, fd := range load.AllFuncDecls(bp) {
+			if fd.Body == nil {
+				continue
+			}
+			for _, ce := range callsIn(fd.Body) {
+				se, ok := ce.Fun.(*ast.SelectorExpr)
+				if !ok || (se.Sel.Name != "writef" && se.Sel.Name != "writelnf") || len(ce.Args) == 0 {
+					continue
+				}
+				if namedOf(bp.TypesInfo.TypeOf(se.X)) != "builder" {
+					continue
+				}
+				n++
+				if w := fixedText(ce.Args[0], fd, 0); w != "" {
+					bad = append(bad, where(ce)+": the format of "+se.Sel.Name+" contains "+abbreviate(w)+": text from the grammar would be interpreted as a format (a `%` in a code block becomes %!x(MISSING) in the output)")
+				}
+			}
+		}
+		r.Check(len(bad) == 0 && n > 20, "C04-i", "G.builder:emission-formats-are-fixed-text", "", "builder/builder.go", fmt.Sprintf("%d writef/writelnf calls, every format is fixed text", n), strings.Join(uniq(bad), "; "))
+	}
+
 	// ---- C04-j: code writers
 	ro := c.writeFuncRoles()
 	for _, cw := range []struct{ fn string }{{"writeActionExprCode"}, {"writeAndCodeExprCode"}, {"writeNotCodeExprCode"}, {"writeStateCodeExprCode"}} {
@@ -968,4 +1049,3 @@ func builderExprCode(c *Ctx, g *load.G) {
 	_ = n
 	r.MinRule("C04-k", 13)
 }
-
